@@ -26,7 +26,7 @@ from common import VERIF, MachineryFailure
 CHUNK = 4000
 # which of the proposed repairs (fixes/C06-*.patch) the tree under test carries: selects the matching transcription
 # (Own / OwnImpl in ArrayFnNum*.tla).  Empty = /repo HEAD.  Override: C06_TREE_FIXES=hstack
-TREE_FIXES = set()
+TREE_FIXES = {"hstack"}  # /repo HEAD carries the repair (fix: commit 417729e)
 
 
 def _key(r, c):
